@@ -119,7 +119,7 @@ def trunc (x : K) : ℤ := if 0 ≤ x then ⌊x⌋ else ⌈x⌉
 
 /-- the wrapped value before the bound test; every arithmetic operation of the code is followed by
 the rounding `rnd` (`rnd = id`: exact arithmetic; `rnd = fl64`: IEEE double, round to nearest even).
-`clamp = true` is the repaired code (`fixes/C14-wrap-ulp.diff`): the wrapped value is brought back
+`clamp = true` is the repaired code (`fixes/C14-wrap.diff`): the wrapped value is brought back
 onto the interval when rounding pushed it past a bound. -/
 def wrapCore (rnd : K → K) (clamp : Bool) (lo hi v : K) : K :=
   let span := rnd (hi - lo)
